@@ -75,7 +75,7 @@ def s_numpy(S):
 
 # --------------------------------------------------------------------------- systems used by the solve-based stand-ins
 
-def _hs_system(eta, N, dr, closure='PercusYevick', kT=1.0, types=('A',), dens=None, diam=None):
+def _hs_system(eta, N, dr, closure='PercusYevick', kT=1.0, types=('A',), dens=None, diam=None, hard_core=False):
     import pyPRISM
     s = pyPRISM.System(list(types), kT=kT)
     s.domain = pyPRISM.Domain(dr=dr, length=N)
@@ -86,7 +86,7 @@ def _hs_system(eta, N, dr, closure='PercusYevick', kT=1.0, types=('A',), dens=No
     for i, a in enumerate(types):
         for b in types[i:]:
             s.potential[a, b] = pyPRISM.potential.HardSphere()
-            s.closure[a, b] = getattr(pyPRISM.closure, closure)()
+            s.closure[a, b] = getattr(pyPRISM.closure, closure)(apply_hard_core=True) if hard_core else getattr(pyPRISM.closure, closure)()
             if a != b:
                 s.omega[a, b] = pyPRISM.omega.NoIntra()
     return s
@@ -164,10 +164,10 @@ def s_wt(S):
     etas = [0.1, 0.3, 0.45] if S.tier == 'quick' else [0.05, 0.1, 0.15, 0.2, 0.25, 0.3, 0.35, 0.4, 0.45]
     grids = [(1024, 0.05), (2048, 0.025)] if S.tier == 'quick' else [(512, 0.1), (1024, 0.05), (2048, 0.025), (4096, 0.0125)]
     S.bounds = 'eta in %s; (N,dr) in %s at fixed r_max=51.2; dilute limit rho=1e-6, 4 potentials x {PY,HNC,MSA}, kT in {0.8,1.0,2.5} set through the constructor and by re-assignment' % (etas, grids)
-    for eta in etas:
+    for eta, flagged in [(e, fl) for e in etas for fl in (False, True)]:
         errs = []
         for N, dr in grids:
-            P = _hs_system(eta, N, dr).createPRISM()
+            P = _hs_system(eta, N, dr, hard_core=flagged).createPRISM()
             r = _solve(P)
             if r is None:
                 S.note += ' no convergence eta=%s dr=%s;' % (eta, dr)
@@ -186,10 +186,13 @@ def s_wt(S):
         scale = (1 + 2 * eta) ** 2 / (1 - eta) ** 4          # |c(0)|: sets the size of the discretisation error
         for (dr, ec_, es, ecr) in errs:
             # discretisation error only: bounded by a constant times dr
-            S.case(ec_ <= 12 * scale * dr and es <= 3 * dr + 5e-3 and ecr <= 6 * scale * dr, 'WT eta=%s dr=%s' % (eta, dr), {'contact': ec_, 'S0': es, 'c(r)': ecr})
+            S.case(ec_ <= 12 * scale * dr and es <= 3 * dr + 5e-3 and ecr <= 6 * scale * dr, 'WT eta=%s dr=%s%s' % (eta, dr, ' (hard-core flag)' if flagged else ''), {'contact': ec_, 'S0': es, 'c(r)': ecr})
         if len(errs) >= 2:
-            S.case(errs[-1][1] <= errs[0][1] * 1.05 + 1e-6 and errs[-1][3] <= errs[0][3] * 1.05 + 1e-6, 'WT error does not grow under refinement eta=%s' % eta,
-                   {'errors': errs})
+            # shrinks under refinement: S(0) and c(r) (smooth measures) decrease from the coarsest to the finest grid; the
+            # contact value is read off one grid point next to a jump, its error can vanish by accident on one grid, so
+            # it is only required not to exceed the largest error of the coarser grids
+            S.case(errs[-1][2] <= errs[0][2] * 1.05 + 1e-6 and errs[-1][3] <= errs[0][3] * 1.05 + 1e-6 and
+                   errs[-1][1] <= max(e[1] for e in errs[:-1]) * 1.05 + 1e-6, 'WT error does not grow under refinement eta=%s%s' % (eta, ' (hard-core flag)' if flagged else ''), {'errors': errs})
     # dilute limit
     pots = {'HardSphere': lambda: pyPRISM.potential.HardSphere(),
             'LennardJones': lambda: pyPRISM.potential.LennardJones(epsilon=1.0, rcut=3.0, shift=True),
